@@ -294,6 +294,18 @@ def family_F5(quick):
         lines += [T(e) for e in es]
         yield unit("F5", "gfa2", lines,
                    [("A", k, pol) for k, pol in calls((0, 2, 3), ("off", "R"))])
+  # parallel links written in OPPOSITE directions, overlaps with I / D (the
+  # duplicate search complements the overlap of every copy it connects)
+  flip = {"+": "-", "-": "+"}
+  for p, q in end_pairs(names):
+    a = link_line(p, q, "3M")
+    b0 = link_line(p, q, "2M1D1M2I")
+    b = ["L", b0[3], flip[b0[4]], b0[1], flip[b0[2]],
+         ref.cigar_complement("2M1D1M2I")]
+    for links in ([a, b], [b, a], [b]):
+      lines = g1_graph(names, links, None, ["RC"], ["RC"])
+      yield unit("F5c", "gfa1", lines,
+                 [("A", k, pol) for k, pol in calls((0, 2, 3), ("off", "R"))])
   # GFA1 links / containments that carry an identifier (ID tag): the copies
   # cannot keep it
   for p, q in end_pairs(names):
@@ -412,8 +424,9 @@ def run_case(c):
     return [], info
   if sorted(l_ for l_ in before if "GFAPY_virtual_line" not in l_) != \
       sorted(c["lines"]):
-    info["skip"] = "build-altered"
-    return [], info
+    # the Gfa does not write back the text it was built from (C01's
+    # business): multiplication is judged against the graph as it stands
+    info["built"] = "altered"
   m, k = c["m"], c["k"]
   kw = {}
   if c["names"] is not None:
